@@ -72,8 +72,12 @@ ASSUMPTIONS = [
 ]
 
 STEP_TIMEOUT = 40.0  # one controlled step (microseconds of work) not reaching its next park point
-OS_STALL = 8.0  # OS-scheduled run: no callback / tofile event for this long = stall (confirmed by a re-run)
-OS_TIMEOUT = 40.0  # ... and absolute cap
+# OS-scheduled runs: a stall is measured in *heartbeat ticks* (a thread of the same process sleeping 20 ms per
+# tick), not in wall-clock seconds, so that a machine that does not schedule this process does not look like a
+# deadlock: no callback / tofile event while the heartbeat advanced OS_STALL_TICKS (~6 s when the machine is idle)
+OS_STALL_TICKS = 300
+OS_CAP_TICKS = 2500  # absolute cap of one run
+OS_WALL_CAP = 300.0  # safety net in seconds
 
 
 class _Abort(BaseException):
@@ -97,6 +101,8 @@ class CThread:
         self.outcome = None
         self.pool = None  # pool whose thread this is (None: the main thread)
         self.executor = None
+        self.phase = None  # "pre": callback of the current tensor not run yet; "post": run
+        self.pre_locks = 0  # locks taken so far in phase "pre" of the current tensor
 
 
 class Sched:
@@ -127,9 +133,8 @@ class Sched:
     def park(self, op):
         ct = self.cur()
         ct.pending = op
-        if op[0] == "lock" and ct.pool is not None and ct.next_task is not None and op[1].role == (
-            "cbin" if self.gcfg["pools"][ct.pool]["innerCb"] else "cb"
-        ):
+        if op[0] == "lock" and ct.pool is not None and ct.next_task is not None and ct.phase == "pre" \
+                and ct.pre_locks == 0 and op[1].role in ("cb", "cbin"):
             # a pool thread reaches its first callback lock: it is starting its next tensor
             if ct.task is not None:
                 self.task_done[ct.task] = "doneOk"
@@ -195,32 +200,57 @@ def _owned_pool(sched):
     return sched.gcfg["jobs"][ct.job]["sub"]
 
 
-def _creator_name(depth=2):
-    f = sys._getframe(depth)
-    while f is not None and f.f_code.co_name.startswith("<"):
-        f = f.f_back
-    return f.f_code.co_name if f is not None else "?"
-
-
 class SLock:
-    def __init__(self, sched: Sched, role: str):
+    """Shim lock.  Its role is not taken from the source text of /repo:
+    * "tensor": the lock objects found (by identity) in the dict returned by `_create_tensor_write_locks`;
+    * "cbin" / "cb": a lock a pool thread takes *before* the callback of its current tensor has run — the first
+      one is the inner writer's own callback lock when the configuration's pool has one, the next one the lock
+      that guards the callback;
+    * "aux": anything else (the `files` list lock): never held across a park point, so it is taken without
+      parking; should it ever be found held, the acquire parks and shows up as a model / code difference."""
+
+    def __init__(self, sched: Sched, role=None):
         self.sched, self.role = sched, role
         self.owner = None
         self.obj = None
+        self.pool = None
         sched.locks.append(self)
 
+    def _resolve(self, ct):
+        want = None
+        if ct.pool is not None and ct.phase == "pre":
+            inner = self.sched.gcfg["pools"][ct.pool]["innerCb"]
+            want = "cbin" if (inner and ct.pre_locks == 0) else "cb"
+        else:
+            want = "aux"
+        if self.role is None:
+            self.role = want
+            if want == "cbin":
+                self.pool = ct.pool
+        elif self.role != "tensor" and self.role != want:
+            self.role = f"?{self.role}-used-as-{want}"
+        return self.role
+
     def acquire(self, blocking=True, timeout=-1):
-        if self.role != "files":
+        ct = self.sched.cur()
+        role = self.role if self.role == "tensor" else self._resolve(ct)
+        if role != "aux" or self.owner is not None:
             self.sched.park(("lock", self))
         if self.owner is not None:
             raise RuntimeError("controlled scheduler resumed a thread on a held lock")
-        self.owner = self.sched.cur()
+        self.owner = ct
+        if role in ("cb", "cbin"):
+            ct.pre_locks += 1
         return True
 
     def release(self):
         if self.owner is None:
             raise RuntimeError("release unlocked lock")
+        ct = self.owner
         self.owner = None
+        if self.role == "tensor":
+            # the tensor is finished: the thread's next lock belongs to its next tensor
+            ct.phase, ct.pre_locks = "pre", 0
 
     def locked(self):
         return self.owner is not None
@@ -243,14 +273,22 @@ class SCond:
         sched.conds.append(self)
 
     def __enter__(self):
-        self.sched.park(("cond", self, _creator_name(2)))
+        # which budget operation this is follows from where the thread is, not from names in /repo: after its
+        # tensor's `tofile` has returned (or raised) it is the release, before that the acquire
+        ct = self.sched.cur()
+        kind = "release" if getattr(ct, "wrote", False) else "acquire"
+        self.sched.park(("cond", self, kind))
         if self.owner is not None:
             raise RuntimeError("controlled scheduler resumed a thread on a held condition lock")
-        self.owner = self.sched.cur()
+        self.owner = ct
+        ct.cond_kind = kind
         return self
 
     def __exit__(self, *a):
+        ct = self.owner
         self.owner = None
+        if ct is not None and getattr(ct, "cond_kind", None) == "release":
+            ct.wrote = False
         return False
 
     def acquire(self, *a, **k):
@@ -369,6 +407,7 @@ class SExecutor:
                 ct.task = None
                 jc = sched.gcfg["jobs"][fut.job] if fut.job < len(sched.gcfg["jobs"]) else None
                 ct.next_task = jc["start"] if jc is not None and jc["sub"] is None else None
+                ct.phase, ct.pre_locks = "pre", 0
                 try:
                     fut.value = fn(*a, **kw)
                     fut.state = "ok"
@@ -425,28 +464,23 @@ def _s_as_completed(sched: Sched):
 
 def install_shim(ed, sched: Sched):
     """Replace, inside onnx_ir.external_data only, threading / concurrent.futures."""
-    saved = (ed.threading, ed.concurrent)
+    saved = (ed.threading, ed.concurrent, getattr(ed, "_create_tensor_write_locks", None))
+    orig_create = saved[2]
+    if orig_create is None:
+        raise RuntimeError("onnx_ir.external_data has no _create_tensor_write_locks: the shim cannot identify the "
+                           "per-tensor locks")
+
+    def create_tensor_write_locks(tensors):
+        locks = orig_create(tensors)
+        for lk in locks.values():  # identity: exactly the lock objects the writer will use per tensor object
+            if isinstance(lk, SLock):
+                lk.role = "tensor"
+        return locks
+
+    ed._create_tensor_write_locks = create_tensor_write_locks
 
     def Lock():
-        import linecache
-        import re
-
-        name = _creator_name(2)
-        fr = sys._getframe(1)
-        if name == "_create_tensor_write_locks":
-            role = "tensor"
-        else:
-            # role from the variable the lock is assigned to (`callback_lock = threading.Lock()`)
-            line = linecache.getline(fr.f_code.co_filename, fr.f_lineno)
-            m = re.search(r"(\w+)\s*=\s*threading\.Lock\(\)", line)
-            var = m.group(1) if m else "?"
-            role = "cb" if "callback" in var else ("files" if "files" in var else f"unknown:{name}:{var}")
-            q = _owned_pool(sched)
-            if role == "cb" and name == "_write_parallel" and q is not None and sched.gcfg["pools"][q]["innerCb"]:
-                role = "cbin"  # the inner writer's own callback lock (taken before the outer one)
-        lk = SLock(sched, role)
-        lk.pool = _owned_pool(sched) if role == "cbin" else None
-        return lk
+        return SLock(sched)
 
     def Condition(lock=None):
         holder = sys._getframe(1).f_locals.get("self")
@@ -465,10 +499,16 @@ def install_shim(ed, sched: Sched):
 
 
 def uninstall_shim(ed, saved):
-    ed.threading, ed.concurrent = saved
+    ed.threading, ed.concurrent, ed._create_tensor_write_locks = saved
 
 
 # --------------------------------------------------------------------------- cases, tensors, oracle state
+
+
+def json_key(obj) -> str:
+    import json
+
+    return json.dumps(obj, sort_keys=True, default=str)
 
 
 def obj_bytes(o: int, size: int) -> bytes:
@@ -543,6 +583,8 @@ class FTensor:
                 raise RuntimeError(f"injected write failure for tensor {task}")
             file.write(self.data)
         finally:
+            if st.sched is not None:
+                st.sched.cur().wrote = True
             with st.meta:
                 st.progress += 1
                 st.active[self.o] -= 1
@@ -560,6 +602,7 @@ def make_callback(st_ref):
         try:
             if st.sched is not None:
                 st.sched.park(("body", "cb"))
+                st.sched.cur().phase = "post"
             elif st.jitter is not None:
                 time.sleep(st.jitter())
             st.log.append(info.index)
@@ -737,6 +780,24 @@ def read_files(base_dir):
 _TMP_ROOT = "/dev/shm" if os.path.isdir("/dev/shm") else None
 
 
+def clean_stale_dirs(max_age_s=1800):
+    """Remove run directories left behind by killed / hung earlier runs."""
+    root = _TMP_ROOT or tempfile.gettempdir()
+    now = time.time()
+    try:
+        names = os.listdir(root)
+    except OSError:
+        return
+    for fn in names:
+        if fn.startswith(("c09c-", "c09o-", "c09s-", "c09-hang-")):
+            p = os.path.join(root, fn)
+            try:
+                if now - os.path.getmtime(p) > max_age_s:
+                    shutil.rmtree(p, ignore_errors=True) if os.path.isdir(p) else os.remove(p)
+            except OSError:
+                pass
+
+
 def serial_reference(case):
     """Files written by the serial save of the same tensors (no failures injected)."""
     clean = dict(case, tensors=[dict(t, fails=False, cbFails=False) for t in case["tensors"]])
@@ -808,6 +869,9 @@ class Director:
         self.dir = tempfile.mkdtemp(prefix="c09c-", dir=_TMP_ROOT)
         self.at_return = None
         self.result = None
+        import random
+
+        self.pick_rng = random.Random(hash(json_key(case)) & 0xFFFFFFF)
 
     # ---- the controlled main thread
     def _main_body(self):
@@ -827,11 +891,11 @@ class Director:
 
     def quiescence(self):
         s = self.sched
-        bud = s.conds[0].holder if s.conds else None
+        buds = [c.holder for c in s.conds if c.holder is not None]
         return dict(
             workers_alive=sum(1 for w in s.workers if not w.exited),
-            inflight=getattr(bud, "_in_flight", 0),
-            oversized=bool(getattr(bud, "_oversized_active", False)),
+            inflight=sum(getattr(b, "_in_flight", 0) for b in buds),
+            oversized=any(bool(getattr(b, "_oversized_active", False)) for b in buds),
             locks_held=sum(1 for l in s.locks if l.owner is not None) + sum(1 for c in s.conds if c.owner is not None),
             active_tofile=sum(self.st.active.values()),
             waiters=sum(len(c.waiters) for c in s.conds),
@@ -942,10 +1006,10 @@ class Director:
         if k in (1, 2):
             if ex is None:
                 return None
-            for w in ex.threads:
-                if not w.exited and w.pending and w.pending[0] == "take":
-                    return w
-            return None
+            idle = [w for w in ex.threads if not w.exited and w.pending and w.pending[0] == "take"]
+            # pool threads are interchangeable in the model; which real thread acts is varied (thread-local file
+            # handles, per-thread state)
+            return self.pick_rng.choice(idle) if idle else None
         for w in s.workers:
             if w.task == a and not w.exited:
                 return w
@@ -1024,19 +1088,19 @@ def run_controlled(case, gcfg, chooser, part=None):
 
 
 def run_os_confirmed(case, seed, part=None):
-    """OS-scheduled run; a stall is confirmed by running the same case / seed once more with doubled limits."""
-    global OS_STALL, OS_TIMEOUT
+    """OS-scheduled run.  A stall is confirmed by running the same case / seed once more with a longer limit; a
+    stall that does not happen again is neither a pass nor a violation: it is reported as an infrastructure
+    problem (exit 2)."""
     r = run_os(case, seed)
     if r["status"] != "hang":
         return r
-    old = (OS_STALL, OS_TIMEOUT)
-    OS_STALL, OS_TIMEOUT = 1.5 * old[0], 1.5 * old[1]
-    try:
-        r2 = run_os(case, seed)
-    finally:
-        OS_STALL, OS_TIMEOUT = old
-    if r2["status"] != "hang" and part is not None:
-        part.count("os_stall_not_reproduced")
+    r2 = run_os(case, seed, stall_ticks=2 * OS_STALL_TICKS)
+    if r2["status"] != "hang":
+        if part is not None:
+            part.count("os_stall_not_reproduced")
+            part["extra"]["infra"] = (
+                "an OS-scheduled run made no progress for the stall limit but completed when repeated: "
+                + json_key({"case": case, "seed": seed}))
     return r2
 
 
@@ -1099,7 +1163,7 @@ def oracle(case, res, serial, mode_tag, out):
 # --------------------------------------------------------------------------- OS-scheduled runs (no shim)
 
 
-def run_os(case, seed):
+def run_os(case, seed, stall_ticks=OS_STALL_TICKS):
     """Plain run with the real threading / ThreadPoolExecutor; random tiny sleeps in callback and tofile."""
     import random
 
@@ -1130,7 +1194,8 @@ def run_os(case, seed):
         except BaseException as e:  # noqa: BLE001
             res["outcome"] = "raised"
             res["exc"] = repr(e)[:200]
-        alive = [t for t in _rt.enumerate() if t.ident not in before and t is not _rt.current_thread()]
+        alive = [t for t in _rt.enumerate() if t.ident not in before and t is not _rt.current_thread()
+                 and t.name != "c09-heartbeat"]
         res["at_return"] = dict(
             workers_alive=len(alive),
             inflight=sum(b._in_flight for b in budgets),
@@ -1143,27 +1208,34 @@ def run_os(case, seed):
     ed._ByteBudget = RecBudget
     try:
         th = _rt.Thread(target=body, daemon=True)
+        hb = [0]
+        stop_hb = _rt.Event()
+
+        def heartbeat():
+            while not stop_hb.is_set():
+                time.sleep(0.02)
+                hb[0] += 1
+
+        hbt = _rt.Thread(target=heartbeat, daemon=True, name="c09-heartbeat")
+        hbt.start()
         th.start()
-        t0 = last = time.time()
-        seen = -1
+        t0 = time.time()
+        seen, last_tick = -1, 0
         while True:
-            th.join(0.25)
+            th.join(0.1)
             if not th.is_alive():
                 break
-            now = time.time()
             if st.progress != seen:
-                seen, last = st.progress, now
-            if now - last > OS_STALL or now - t0 > OS_TIMEOUT:
+                seen, last_tick = st.progress, hb[0]
+            if hb[0] - last_tick > stall_ticks or hb[0] > OS_CAP_TICKS or time.time() - t0 > OS_WALL_CAP:
                 res["status"] = "hang"
                 break
-        if res["status"] == "hang":
-            pass
-        else:
+        stop_hb.set()
+        if res["status"] == "ok":
             res["files"] = read_files(d)
     finally:
         ed._ByteBudget = orig
-        if res["status"] == "ok":
-            shutil.rmtree(d, ignore_errors=True)
+        shutil.rmtree(d, ignore_errors=True)  # also after a hang: blocked threads write nothing any more
     res["log"] = list(st.log)
     res["max_active_bytes"] = st.max_active_bytes
     res["tofile_calls"] = list(st.tofile_calls)
@@ -1376,6 +1448,9 @@ def _work(item):
                     results[-1]["status"] = "ok-incomplete"
                     part.disagree("implementation not terminal at the end of a complete model schedule",
                                   {"config": name, "case": case, "labels": sc})
+                if len(results) >= 100:  # bound the memory held by traces
+                    _compare(part, name, case, cfg, results, serial)
+                    results = []
             _compare(part, name, case, cfg, results, serial)
         elif kind == "walk":  # random walks on random configurations
             import random
@@ -1436,6 +1511,7 @@ def run(ctx: Ctx) -> None:
     from harness.common import Infra
 
     logging.getLogger("onnx_ir.external_data").setLevel(logging.ERROR)  # "oversized shard" warnings
+    clean_stale_dirs()
 
     ctx.rule = (
         "a case = (configuration, schedule actually executed by the real writer under the controlled scheduler); "
@@ -1493,11 +1569,16 @@ def run(ctx: Ctx) -> None:
     finally:
         if os.path.exists(marker):
             os.remove(marker)
+    infra = []
     for part in parts:
         crash = part.get("extra", {}).get("crash")
         if crash:
             raise Infra("worker crashed: " + crash)
+        if part.get("extra", {}).get("infra") and not part["failures"]:
+            infra.append(part["extra"]["infra"])
         ctx.merge(part)
+    if infra and not ctx.failures:
+        raise Infra(infra[0])
 
 
 def _replay_into(part, obj: dict) -> None:
